@@ -394,12 +394,12 @@ def handwritten_cases():
       yield ("cl", (q, n))
 
 
-HW_GROUPS = ("default", "simple", "unroll")
+HW_GROUPS = ("default", "simple", "unroll", "heutopo", "mamba")
 
 
 def build_hw(kind, args, group, chooser=None):
   from pymtl3.passes.PassGroups import DefaultPassGroup, SimpleSimPass
-  from pymtl3.passes.mamba.PassGroups import UnrollSim
+  from pymtl3.passes.mamba.PassGroups import UnrollSim, HeuTopoUnrollSim, Mamba2020
   from vt import seams
   import pymtl3.stdlib.queues.cl_queues as clq
   top = FLDesign(*args) if kind == "fl" else CLCallers(getattr(clq, args[0]), args[1])
@@ -407,6 +407,8 @@ def build_hw(kind, args, group, chooser=None):
   with seams.shuffle_seam(chooser):
     if group == "default": top.apply(DefaultPassGroup())
     elif group == "simple": top.apply(SimpleSimPass())
+    elif group == "heutopo": top.apply(HeuTopoUnrollSim(print_line_trace=False))
+    elif group == "mamba": top.apply(Mamba2020(print_line_trace=False))
     else: top.apply(UnrollSim(print_line_trace=False))
   return top
 
@@ -426,7 +428,13 @@ def check_hw(kind, args, acc, only_group=None, choices=None):
   for g in HW_GROUPS:
     if only_group and g != only_group: continue
     def run(cr):
-      top = build_hw(kind, args, g, (lambda n: cr.choose(n, 0)) if g != "default" else None)
+      try:
+        top = build_hw(kind, args, g, (lambda n: cr.choose(n, 0)) if g in ("simple", "unroll") else None)
+      except Exception as ex:
+        acc.violation(f"{kind}:{g}:pass-raised:{args if kind == 'cl' else 'blocking=' + ''.join(map(str, args))}", dict(case, group=g, choices=[p[1] for p in cr.points]),
+                      "the design is scheduled", f"{type(ex).__name__}: {str(ex)[:120]}")
+        acc.count("executions")
+        return ()
       out = []
       top.sim_reset()
       for _ in range(3):
@@ -447,8 +455,8 @@ def check_hw(kind, args, acc, only_group=None, choices=None):
       acc.count("executions"); acc.count("order_checks", 3)
       return tuple(out)
     n = 0
-    for ch, orders in choice_dfs(run, bound=None, cap=(1 if g == "default" else 30)):
-      acc.add("orders", (kind, tuple(args), orders[0]))
+    for ch, orders in choice_dfs(run, bound=None, cap=(30 if g in ("simple", "unroll") else 1)):
+      if orders: acc.add("orders", (kind, tuple(args), orders[0]))
       n += 1
     acc.count("seam_schedules", n)
   acc.count("designs")
